@@ -122,6 +122,14 @@ func init() {
 		add(id, txAssumptions, tier("thorough", failFeeSym)...)
 	}
 
+	// (no bancor gas coin here: with the formula as an uninterpreted function the
+	// fee of the second delivery would be unrelated to the first one's)
+	twice := HSpec{Pkg: txPkg, Func: "VerifHarness_Send_Twice", Configs: []map[string]int64{cfg("gasCoin", 0, "coin", 0), cfg("gasCoin", 0, "coin", 2)},
+		Bounds: "two deliveries of the same signed Send paid in the base coin; amounts, gas price, nonce symbolic"}
+	for _, id := range []string{"C04", "C26"} {
+		add(id, txAssumptions, tier("quick", twice)...)
+	}
+
 	// ---------------------------------------------------------- blocks
 	byz := HSpec{Pkg: minterPkg, Func: "VerifHarness_Block_ByzantineAndMaturity", Configs: []map[string]int64{cfg("evidence", 1), cfg("evidence", 0)},
 		Bounds: "one BeginBlock at height 1000: byzantine evidence against validator P (or none), 5 frozen items (2 maturing now, one of them a pending move), all amounts unbounded positive integers"}
